@@ -504,20 +504,13 @@ impl<'a> Ord for BorrowedTerm<'a> {
                         _ => Ordering::Equal,
                     }
                 }
-                (BorrowedTerm::Binary(a), BorrowedTerm::Binary(b)) => a.cmp(b),
-                (BorrowedTerm::String(a), BorrowedTerm::String(b)) => a.cmp(b),
-                (BorrowedTerm::Binary(a), BorrowedTerm::String(b)) => a.as_ref().cmp(b.as_bytes()),
-                (BorrowedTerm::String(a), BorrowedTerm::Binary(b)) => a.as_bytes().cmp(b.as_ref()),
-                (
-                    BorrowedTerm::BitBinary {
-                        bytes: a,
-                        bits: abits,
-                    },
-                    BorrowedTerm::BitBinary {
-                        bytes: b,
-                        bits: bbits,
-                    },
-                ) => a.cmp(b).then_with(|| abits.cmp(bbits)),
+                // binaries, strings and bit-strings share one rank and compare bit-wise
+                (a, b) if bit_parts(a).is_some() && bit_parts(b).is_some() => {
+                    match (bit_parts(a), bit_parts(b)) {
+                        (Some((ab, an)), Some((bb, bn))) => ab.cmp(bb).then_with(|| an.cmp(&bn)),
+                        _ => Ordering::Equal,
+                    }
+                }
                 _ => Ordering::Equal,
             },
             other => other,
@@ -780,6 +773,16 @@ fn compare_tail_with_rest<'a>(
                 }
             }
         },
+    }
+}
+
+/// Bytes and number of significant bits in the last byte of a bit-string-rank term.
+fn bit_parts<'t>(t: &'t BorrowedTerm<'_>) -> Option<(&'t [u8], u8)> {
+    match t {
+        BorrowedTerm::Binary(bytes) => Some((bytes.as_ref(), 8)),
+        BorrowedTerm::String(s) => Some((s.as_bytes(), 8)),
+        BorrowedTerm::BitBinary { bytes, bits } => Some((bytes.as_ref(), *bits)),
+        _ => None,
     }
 }
 
